@@ -7,14 +7,23 @@ import (
 
 	"github.com/voedger/voedger/pkg/appdef"
 	"github.com/voedger/voedger/pkg/appdef/builder"
+	"github.com/voedger/voedger/pkg/appdef/constraints"
 )
 
 const pkg = "app"
 
 // Schema is the harness-side description a real IAppDef is built from (through appdef/builder).
 type Field struct {
-	N string `json:"n"`
-	K uint8  `json:"k"` // appdef.DataKind
+	N   string `json:"n"`
+	K   uint8  `json:"k"`             // appdef.DataKind
+	Max uint16 `json:"max,omitempty"` // MaxLen constraint (string / bytes only): the field gets an anonymous data type
+}
+
+func (f Field) cons() []appdef.IConstraint {
+	if f.Max > 0 && (f.K == 7 || f.K == 8) {
+		return []appdef.IConstraint{constraints.MaxLen(f.Max)}
+	}
+	return nil
 }
 
 type Cont struct {
@@ -23,6 +32,7 @@ type Cont struct {
 }
 
 type Table struct {
+	Pkg      string   `json:"pkg,omitempty"` // local package name; "" = app
 	Name     string   `json:"name"`
 	Kind     string   `json:"kind"` // cdoc wdoc odoc crecord wrecord orecord object
 	Fields   []Field  `json:"fields,omitempty"`
@@ -56,7 +66,15 @@ type WS struct {
 }
 
 type Schema struct {
-	WSs []WS `json:"wss"`
+	Pkgs []string `json:"pkgs,omitempty"` // extra packages (local name p, path test.com/p) besides app
+	WSs  []WS     `json:"wss"`
+}
+
+func (t Table) q() appdef.QName {
+	if t.Pkg != "" {
+		return appdef.NewQName(t.Pkg, t.Name)
+	}
+	return q(t.Name)
 }
 
 func (s *Schema) clone() *Schema {
@@ -84,6 +102,9 @@ func (s *Schema) Build() (app appdef.IAppDef, err error) {
 	}()
 	adb := builder.New()
 	adb.AddPackage(pkg, "test.com/app")
+	for _, p := range s.Pkgs {
+		adb.AddPackage(p, "test.com/"+p)
+	}
 	wsbs := make([]appdef.IWorkspaceBuilder, len(s.WSs))
 	for i, ws := range s.WSs {
 		wsbs[i] = adb.AddWorkspace(q(ws.Name))
@@ -94,30 +115,30 @@ func (s *Schema) Build() (app appdef.IAppDef, err error) {
 			var sb appdef.IStructureBuilder
 			switch t.Kind {
 			case "cdoc":
-				sb = wsb.AddCDoc(q(t.Name))
+				sb = wsb.AddCDoc(t.q())
 			case "wdoc":
-				sb = wsb.AddWDoc(q(t.Name))
+				sb = wsb.AddWDoc(t.q())
 			case "odoc":
-				sb = wsb.AddODoc(q(t.Name))
+				sb = wsb.AddODoc(t.q())
 			case "crecord":
-				sb = wsb.AddCRecord(q(t.Name))
+				sb = wsb.AddCRecord(t.q())
 			case "wrecord":
-				sb = wsb.AddWRecord(q(t.Name))
+				sb = wsb.AddWRecord(t.q())
 			case "orecord":
-				sb = wsb.AddORecord(q(t.Name))
+				sb = wsb.AddORecord(t.q())
 			case "object":
-				sb = wsb.AddObject(q(t.Name))
+				sb = wsb.AddObject(t.q())
 			default:
 				return nil, fmt.Errorf("unknown table kind %q", t.Kind)
 			}
 			for _, f := range t.Fields {
-				sb.AddField(f.N, appdef.DataKind(f.K), false)
+				sb.AddField(f.N, appdef.DataKind(f.K), false, f.cons()...)
 			}
 			for _, c := range t.Conts {
 				sb.AddContainer(c.N, q(c.T), 0, appdef.Occurs_Unbounded)
 			}
 			if len(t.Unique) > 0 {
-				sb.AddUnique(appdef.UniqueQName(q(t.Name), "u1"), t.Unique)
+				sb.AddUnique(appdef.UniqueQName(t.q(), "u1"), t.Unique)
 			}
 			if t.Abstract {
 				sb.SetAbstract()
@@ -129,10 +150,10 @@ func (s *Schema) Build() (app appdef.IAppDef, err error) {
 				vb.Key().PartKey().AddField(f.N, appdef.DataKind(f.K))
 			}
 			for _, f := range v.CC {
-				vb.Key().ClustCols().AddField(f.N, appdef.DataKind(f.K))
+				vb.Key().ClustCols().AddField(f.N, appdef.DataKind(f.K), f.cons()...)
 			}
 			for _, f := range v.Val {
-				vb.Value().AddField(f.N, appdef.DataKind(f.K), false)
+				vb.Value().AddField(f.N, appdef.DataKind(f.K), false, f.cons()...)
 			}
 		}
 		for _, f := range ws.Fns {
